@@ -165,6 +165,10 @@ CLAIMS = {
              'token), findCloseAux_clean, findSub_arrow, nameMatchLen_append, dtml_ssi_same_token (<dtml-X args> and '
              '<!--#X args--> scan to tokens with the same name and arguments, or both to no tag, for every body free of > and "), '
              'entity_is_var_html_quote (&dtml-n; = var "n html_quote"), dotted_entity_is_var (&dtml.m1.m2-n; = var "n m1 m2"). '
+             'Translated from the source on every run (harness/trans_parsetag.py -> GenParseTag.lean): HTML.parseTag, '
+             'String.parseTag statement by statement, String._parseTag as a checked frame; gen_html_parseTag_is_model, '
+             'gen_string_parseTag_is_model, gen_parseTag_wrapper_is_model (= tagRole of the syntax, for every token and open '
+             'block), gen_lazy_commands_keep_their_key, gen_parseTag_epfs_eq_html. '
              'Correspondence: compiled tree of the model for every spelling vs the real parser; oracle: the spellings of one '
              'abstract template (2x dtml, 2x SSI incl. /, end, END forms, %(…)) are all accepted or all rejected, compile to '
              'equal normalised programs and render to equal text / exception / call log on 3 namespaces; entity references '
@@ -385,6 +389,8 @@ CLAIMS = {
              'gen_params_tail_is_model, gen_parse_params_is_model (= Parse.parseParamsAux for every table, fuel, text and '
              'dictionary), gen_parse_params_any_fuel, gen_name_param_is_model / gen_name_param_default (= Parse.nameParam); '
              'params_progress / params_fuel_enough (every successful match consumes >= 1 character: the fuel is never used up); '
+             'gen_parseTag_is_tagRole, gen_parseTag_unknown_tag, gen_parseTag_unexpected_end (the tag roles and ParseErrors of '
+             'String._parseTag / HTML.parseTag / String.parseTag as translated from the source on every run, GenParseTag.lean); '
              'correspondence on valid templates in 3 syntaxes, single mutations, all '
              'prefixes, junk and a 48-entry grammar-fault corpus: acceptance, compiled tree and token streams agree; '
              'oracle: exception class, error location, pumped-family CPU time',
